@@ -4,6 +4,7 @@ import (
 	"fmt"
 	"go/ast"
 	"go/parser"
+	"go/printer"
 	"go/token"
 	"path/filepath"
 	"strconv"
@@ -161,6 +162,33 @@ func genCli(repo string) (string, error) {
 	vMax, vQuadFirst := maxThenUse(mainF, "validateTileMatrixSet", "tileMatrixIDs", "DeviationStats")
 	sMax, _ := maxThenUse(snapF, "SnapPolygon", "tmIDs", "FromTileMatrixSet")
 
+	// injectSuffixIntoPath must have exactly the shape the model Cli/Model.v transcribes:
+	//   dir, file := path.Split(p); ext := path.Ext(file); name := file[:len(file)-len(ext)]; return path.Join(dir, name+FORMAT+ext)
+	injectShape := false
+	for _, d := range mainF.Decls {
+		fd, ok := d.(*ast.FuncDecl)
+		if !ok || fd.Name.Name != "injectSuffixIntoPath" || len(fd.Body.List) != 4 {
+			continue
+		}
+		src := func(n ast.Node) string {
+			var sb strings.Builder
+			_ = printer.Fprint(&sb, fset, n)
+			return strings.Join(strings.Fields(sb.String()), " ")
+		}
+		want := []string{
+			"dir, file := path.Split(p)",
+			"ext := path.Ext(file)",
+			"name := file[:len(file)-len(ext)]",
+			"return path.Join(dir, name+" + strconv.Quote(suffix) + "+ext)",
+		}
+		injectShape = true
+		for i, st := range fd.Body.List {
+			if src(st) != want[i] {
+				injectShape = false
+			}
+		}
+	}
+
 	var b strings.Builder
 	b.WriteString("(* GENERATED by /verif/translator (CLI glue) from main.go and snap/snap.go on every run -- do not edit. *)\n")
 	b.WriteString("From Coq Require Import List String Bool.\nImport ListNotations.\nOpen Scope string_scope.\n\n")
@@ -172,7 +200,8 @@ func genCli(repo string) (string, error) {
 		fmt.Fprintf(&b, "(%q, %q)", kv[0], kv[1])
 	}
 	b.WriteString("].\n\n")
-	fmt.Fprintf(&b, "(* injectSuffixIntoPath: name ++ this format ++ ext *)\nDefinition gen_suffix_format : string := %q.\n\n", suffix)
+	fmt.Fprintf(&b, "(* injectSuffixIntoPath: name ++ this format ++ ext *)\nDefinition gen_suffix_format : string := %q.\n", suffix)
+	fmt.Fprintf(&b, "(* injectSuffixIntoPath has, statement by statement, the shape transcribed in Cli/Model.v *)\nDefinition gen_inject_shape : bool := %v.\n\n", injectShape)
 	fmt.Fprintf(&b, "(* validateTileMatrixSet: deviation reported for slices.Max(ids); IsQuadTree runs before DeviationStats *)\nDefinition gen_validate_deepest_is_max : bool := %v.\nDefinition gen_validate_quadtree_first : bool := %v.\n", vMax, vQuadFirst)
 	fmt.Fprintf(&b, "(* snap.SnapPolygon: the grid is built for slices.Max(ids) *)\nDefinition gen_snap_deepest_is_max : bool := %v.\n", sMax)
 	return b.String(), nil
